@@ -43,7 +43,7 @@ pub struct TwinOut {
 }
 
 fn universe_json(u: &Universe) -> Value {
-    json!({"addrs": u.addrs, "hashes": u.hashes, "iids": u.iids, "pk_tickers": u.pk_tickers, "slots": u.slots, "max_height": u.max_height})
+    json!({"addrs": u.addrs, "hashes": u.hashes, "iids": u.iids, "pk_tickers": u.pk_tickers, "slots": u.slots, "max_height": u.max_height, "min_height": u.min_height})
 }
 
 fn universe_from(v: &Value) -> Universe {
@@ -61,6 +61,7 @@ fn universe_from(v: &Value) -> Universe {
         }
     }
     u.max_height = v["max_height"].as_u64().unwrap_or(0);
+    u.min_height = v["min_height"].as_u64().unwrap_or(0);
     u
 }
 
@@ -105,6 +106,8 @@ fn twin_case(ctx: &WorkerCtx, rep: &mut WorkerReport, case_seed: u64, blocks: u6
     let (net, _) = net_for_shard(ctx.shard);
     let mut rng = crate::rng::Rng::new(case_seed);
     let mut w = World::new(case_seed, rpc::chain_id_for(net));
+    let scale = scale_world(&mut w, case_seed, true, false);
+    rep.set_add("scale_profiles", scale);
     w.profile.p_empty_block = 8;
     w.profile.max_txs_per_block = 7;
     w.profile.w_call = 14;
@@ -289,6 +292,10 @@ pub fn build_corpus(net: &str) -> (Vec<Op>, Universe) {
     }
     d.exec(Op::Commit);
     grow(&mut w, &mut d, 3, CommitPolicy::Never, &mut rng);
+    // one block of 257..300 transactions and more than 256 logs: indices beyond one byte are pinned too
+    w.profile.p_big_block = 100;
+    w.gen_block(&mut d);
+    w.profile.p_big_block = 0;
     // blocks whose supplied timestamp is 0 or the largest value: nothing may be substituted for them
     for op in zero_time_ops(&w.pks[0], d.next_height(), false) {
         d.exec(op);
